@@ -4,4 +4,6 @@ EXTENDS Connection
 XView == <<state, xstate>>          \* obs / xobs are observations, not state
 CMsgDom == {}
 CTextDom == {}
+CHretsFail == {-3}
+CHretsBoth == {0, -3}
 =============================================================================
